@@ -203,6 +203,49 @@ theorem no_leak_finish (s0 : QSys) (h : RStore.Consistent s0.store) (es : List Q
 def SortedBatch (g : GSys) (i : Nat) : Prop :=
   (g.pops.filter fun d => d.client == i && d.returned).Pairwise fun a b => ∃ ra rb, a.ready = some ra ∧ b.ready = some rb ∧ ra ≤ rb
 
+/- FULL STATEMENT (false of the model and of the code, see `batch_unsorted_witness`):
+theorem batch_sorted (s0 : QSys) (h0 : s0.Init) (es : List QSysEv) (i : Nat) : SortedBatch (reach s0 es) i
+-/
+
+/-- **batch order, sequential side condition** (the `_partial` of `batch_sorted`; extra hypothesis `hno`): split the run
+as `es1 ++ es2` such that consumer `i`'s call lies within `es2` (after `es1` it has popped nothing and is not between a
+`ZRANGEBYSCORE` and its batch).  If no enqueue executes during `es2` (the enqueue log does not grow) — other consumers,
+ticks of either sign and deaths are allowed — the batch consumer `i` holds / returns is in ready-time order.
+What is missing for the full statement is false: see `batch_unsorted_witness` -/
+theorem batch_sorted_seq (s0 : QSys) (h0 : s0.Init) (es1 es2 : List QSysEv) (i : Nat)
+    (hfresh : ∀ d ∈ (reach s0 es1).pops, d.client ≠ i)
+    (hnot : ∀ c got e ids, (reach s0 es1).sys.clients[i]? = some c → c.started = true → c.pc ≠ .popExec got e ids)
+    (hno : (reach s0 (es1 ++ es2)).enqs.length = (reach s0 es1).enqs.length) :
+    SortedBatch (reach s0 (es1 ++ es2)) i := by
+  have hG1 := (GInv.init h0).run es1
+  have h1 : SeqInv (reach s0 es1).enqs.length i (reach s0 es1) :=
+    ⟨hG1, Nat.le_refl _, fun _ => SInv.ofFresh hfresh hnot⟩
+  have h2 := h1.run es2
+  have hr : reach s0 (es1 ++ es2) = (reach s0 es1).run es2 := GSys.run_append _ _ _
+  rw [hr] at hno ⊢
+  exact (h2.2.2 (Nat.le_of_eq hno)).batch h2.1
+
+/-- **batch order, concurrent side condition** (the stronger `_partial`; extra hypotheses `hm`, `hlate`): as
+`batch_sorted_seq`, but enqueues may execute during the call provided each of them has a ready time that is not
+before the system clock at the moment its batch executes (every producer in the repository: `ready ≥ now`), and the
+clock is monotone.  A late enqueue with a past ready time is exactly what `batch_unsorted_witness` uses -/
+theorem batch_sorted_conc (s0 : QSys) (h0 : s0.Init) (harr : ∀ c ∈ s0.clients, c.started = true → c.arrival ≤ s0.clock)
+    (es1 es2 : List QSysEv) (hm : Monotone (es1 ++ es2)) (i : Nat)
+    (hfresh : ∀ d ∈ (reach s0 es1).pops, d.client ≠ i)
+    (hnot : ∀ c got e ids, (reach s0 es1).sys.clients[i]? = some c → c.started = true → c.pc ≠ .popExec got e ids)
+    (hlate : ∀ (k : Nat) (e : GEnq), (reach s0 es1).enqs.length ≤ k → (reach s0 (es1 ++ es2)).enqs[k]? = some e → e.clk ≤ e.ready) :
+    SortedBatch (reach s0 (es1 ++ es2)) i := by
+  have hm1 : Monotone es1 := fun e he => hm e (List.mem_append.2 (Or.inl he))
+  have hm2 : Monotone es2 := fun e he => hm e (List.mem_append.2 (Or.inr he))
+  have hG1 := (GInv.init h0).run es1
+  have hT1 := GTInv.run (GInv.init h0) (TInv.init h0 harr) es1 hm1
+  have h1 : ConcInv (reach s0 es1).enqs.length i (reach s0 es1) :=
+    ⟨hG1, hT1, Nat.le_refl _, fun _ => SInv.ofFresh hfresh hnot⟩
+  have h2 := h1.run es2 hm2
+  have hr : reach s0 (es1 ++ es2) = (reach s0 es1).run es2 := GSys.run_append _ _ _
+  rw [hr] at hlate ⊢
+  exact (h2.2.2.2 hlate).batch h2.1
+
 def wp1 : Probe := ⟨⟨1, 10481⟩, 10481, .details, 0, 3⟩
 def wp2 : Probe := ⟨⟨2, 10482⟩, 10482, .details, 0, 3⟩
 
